@@ -268,7 +268,7 @@ def seeded(tier, rest):
     for sid in ids:
         meta = json.load(open(os.path.join(sdir, sid, "meta.json")))
         neutral = "-led-to-" in sid or "-neutralised-" in sid
-        rare = bool(meta.get("rare"))
+        rare = bool(meta.get("rare")) or bool(meta.get("uncovered"))
         props = [meta["property"]] + [p for p in meta.get("also", []) if p != meta["property"]]
         work = tempfile.mkdtemp(prefix="pgsim-seeded-", dir=tmp)
         try:
@@ -304,7 +304,7 @@ def seeded(tier, rest):
             results.append({"id": sid, "property": meta["property"], "applies": True, "caught": bool(caught_by),
                             "caught_by": caught_by, "oracles": oracles[:6], "neutralised_by_a_repair": neutral})
             print("seeded %-22s %s %s %s" % (sid, "CAUGHT" if caught_by else ("no alarm (neutralised, as expected)" if neutral else
-                                                                               ("not caught in this quick run (rare trigger, see meta)" if rare else "MISSED")),
+                                                                               ("not caught (rare trigger or documented gap, see meta)" if rare else "MISSED")),
                                              caught_by, oracles[:3]))
             sys.stdout.flush()
         finally:
